@@ -898,6 +898,8 @@ def problem_signatures(repo):
             kinds.append(kd)
         if kinds is None or (m.group(1) == "void") != (kinds.count("OUT") == 1):
             continue
+        if m.group(2) in out:
+            raise OutOfGrammar("problem function %s declared twice" % m.group(2))
         out[m.group(2)] = (kinds, "S" if m.group(1) == "real_t" else None)
     return out
 
